@@ -6,6 +6,15 @@ import os
 ROOT = os.path.dirname(os.path.dirname(os.path.abspath(__file__)))
 
 CHECKS = {
+    'C18': ('model_checking', '§7 C18',
+            'KevoMem models the skiplist at pointer level: Insert as PickHeight, RaiseMax, FindPreds and per level LinkNodeNext/LinkPredNext; '
+            'readers (Find, Seek, SeekToFirst, Next with snapshot visibility) take one pointer load per step. TLC checks Level0Sorted, '
+            'LevelsAreSublists, FindReturnsMaxSeq, ReaderSeesAtLeastPrefix, ImmutableNeverChanges exhaustively incl. mid-insert states '
+            '(spec-level mutants must fail). Generated behaviours are bound deterministically: sequential replay on MemTable/MemTablePool, '
+            'and gated interleavings - writer parked at every link step, reader parked between descent and landing - with each observation '
+            'checked against the admissible set the specification computes; a -race stress run as a labelled extra.',
+            'interleavings on the real code at hook granularity; heights above 2 only by retry; one writer',
+            'TLC MC at pointer level + gated deterministic interleavings of generated behaviours'),
     'C11': ('model_checking', '§7 C11',
             'KevoSST transcribes writer (cuts, restart points, index = first keys, offset-labelled filters) and the lookup algorithms '
             '(index scan, restart binary search with step-back, linear decode, block hand-over, Get with filter) operationally; TLC checks '
